@@ -212,9 +212,16 @@ class ComputeTypeVisitor(Visitor.DefaultVisitor):
         assert isinstance(decl, ast.VariableDeclaration)
 
         scope = ctx[-1]
-        scope.RegisterVariable(decl.GetName(), decl.ResolveType(scope))
+        declaredType = decl.ResolveType(scope)
+        scope.RegisterVariable(decl.GetName(), declaredType)
         if decl.HasInitializerExpression():
-            self._ProcessExpression(decl.GetInitializerExpression(), scope)
+            initializerType = self._ProcessExpression(
+                decl.GetInitializerExpression(), scope
+            )
+            if not types.IsCompatible(declaredType, initializerType):
+                Errors.ERROR_INCOMPATIBLE_TYPES.Raise(
+                    declaredType, initializerType
+                )
 
     def v_Expression(self, expr, ctx):
         self._ProcessExpression(expr, ctx[-1])
